@@ -273,6 +273,12 @@ class RefModule:
                 out += list(s["states"])
         return out + [f"i_{s['name']}" for s in self.syns]
 
+    def syn_of_state(self, state):
+        for s in self.syns:
+            if state in s["states"] or state == f"i_{s['name']}":
+                return s["name"]
+        return None
+
     def node_columns(self):
         cols = list(BASE_PARAMS + BASE_STATES)
         for c in self.chans.values():
@@ -389,6 +395,12 @@ class RefModule:
         targets = rv.N if state in cs else rv.E
         if state == "i":
             raise Unspec("recording 'i'")
+        if state not in cs:
+            owner = self.syn_of_state(state)
+            if any(self.edges[e]["type"] != owner for e in targets):
+                raise Unspec("synaptic state recorded on a view that holds edges of another type")
+            if not targets:
+                raise Unspec("synaptic recording on a view without edges")
         added = 0
         for t in targets:
             if [t, state] not in self.recordings:
